@@ -443,6 +443,9 @@ theorem acc_fire (v : Variant) {s s' : S} {l : Label} (hi : Inv s.core) (ha : Ac
   | cancel =>
     obtain ⟨m, hm, hr⟩ := ha
     simp only [fire, Option.some.injEq] at h; subst h; exact ⟨m, hm, hr⟩
+  | fatal =>
+    obtain ⟨m, hm, hr⟩ := ha
+    simp only [fire, Option.some.injEq] at h; subst h; exact ⟨m, hm, hr⟩
   | post e =>
     obtain ⟨m, hm, hr⟩ := ha
     cases e <;> simp only [fire, postEv, Option.some.injEq, reduceCtorEq] at h <;> first | (subst h; exact ⟨m, hm, hr⟩) | cases h
